@@ -30,6 +30,9 @@ def _work(args):
 
 def _dispatch(mod, prop, ctx, case):
     """sequence / statefulness cases (props/_stateful.py) are generic; everything else belongs to the property's own module"""
+    if isinstance(case, dict) and case.get("kind") == "battery":
+        from props import _battery
+        return _battery.run(prop, ctx, case)
     if isinstance(case, dict) and case.get("kind") == "stateful":
         from props import _stateful
         return _stateful.run(prop, ctx, case)
@@ -40,14 +43,19 @@ def _stateful_rule(prop):
     from props import _stateful
     if prop not in _stateful.RUN:
         return ""
-    return ("  PLUS sequence cases (harness/props/_stateful.py, histogram key 'stateful'): short histories on the same Python objects — "
+    from props import _battery
+    bat = ""
+    if prop in _battery.BATTERIES:
+        bat = ("  PLUS correspondence batteries (harness/batteries/%s; histogram key 'battery:*'): stand-alone differential runs of the compiled "
+               "model against the library on their own generated inputs" % ", ".join(b[0] for b in _battery.BATTERIES[prop]))
+    return (bat + "  PLUS sequence cases (harness/props/_stateful.py, histogram key 'stateful'): short histories on the same Python objects — "
             "re-query after in-place edits, caller-owned argument objects reused, results held across later calls; oracles: dense arrays "
             "and fresh-copy equivalence (sampling of the implementation only, no model side)")
 
 
 def _all_cases(mod, prop, rng, tier):
-    from props import _stateful
-    return list(mod.cases(rng, tier)) + _stateful.cases(prop, rng, tier)
+    from props import _stateful, _battery
+    return _battery.cases(prop, rng, tier) + list(mod.cases(rng, tier)) + _stateful.cases(prop, rng, tier)
 
 
 def run_cases(prop, tier, seed, cases, use_model, search_only=False, workers=None):
